@@ -132,6 +132,148 @@ def oracle_c04(c, a, b):
     return None
 
 
+def _hex(x):
+    return b"" if x == "-" else bytes.fromhex(x)
+
+
+def oracle_c05(c, a, b):
+    w = c.split(" ")
+    if w[0] != "uncompress":
+        return None
+    p = _hex(w[1])
+    ok_in, _ = refdec.is_wellformed(p)
+    if not ok_in:
+        return None  # outside the quantifier
+    if outcome(a) != "ok":
+        return "decompression of an accepted packet did not succeed: %s" % a[:60]
+    t = a.split(" ")
+    u = _hex(t[1])
+    ok_out, why = refdec.is_wellformed(u)
+    if not ok_out:
+        return "decompressed packet is not accepted: %s" % why
+    mi, mo = refdec.decode(p), refdec.decode(u)
+    if refdec.msg_key(mi) != refdec.msg_key(mo):
+        return "decompression changed the message"
+    if u != refdec.encode(mi):
+        return "output is not the pointer-free encoding of the message (a name still uses a pointer, or bytes differ)"
+    if w[2] == "-":
+        if "idem=1" not in a:
+            return "a second decompression changed the packet (%s)" % t[-1]
+    else:
+        ro = int(w[2])
+        if ro not in mi.bounds:
+            return None
+        k = mi.bounds.index(ro) if ro != len(p) else len(mi.bounds) - 1
+        if int(t[2]) != mo.bounds[k]:
+            return "boundary %d of the input (record #%d) was translated to %s, the same boundary in the output is %d" % (ro, k, t[2], mo.bounds[k])
+    return None
+
+
+def ptr_free_names(m):
+    return not m.q_ptr and not any(r.ptr_in_names for s in m.secs for r in s)
+
+
+def oracle_c06(c, a, b):
+    w = c.split(" ")
+    if w[0] != "compress":
+        return None
+    p = _hex(w[1])
+    ok_in, _ = refdec.is_wellformed(p)
+    if not ok_in:
+        return None
+    mi = refdec.decode(p)
+    if not ptr_free_names(mi):
+        return None
+    if outcome(a) != "ok":
+        return "compression of an accepted pointer-free packet did not succeed: %s" % a[:60]
+    o = _hex(a.split(" ")[1])
+    ok_out, why = refdec.is_wellformed(o)
+    if not ok_out:
+        return "compressed packet is not accepted: %s" % why
+    if len(o) > len(p):
+        return "compression grew the packet (%d -> %d)" % (len(p), len(o))
+    mo = refdec.decode(o)
+    if refdec.msg_key(mi, ci=True) != refdec.msg_key(mo, ci=True):
+        return "compression changed the message (a pointer does not designate the suffix it stands for, or a record was lost)"
+    if mi.qname != mo.qname:
+        return "question name not byte-identical"
+    return None
+
+
+def lower(n):
+    return [l.lower() for l in n]
+
+
+def rename_name(n, target, source, sfx):
+    ln, ls = lower(n), lower(source)
+    if (sfx and len(ln) >= len(ls) and ln[len(ln) - len(ls):] == ls) or (not sfx and ln == ls):
+        return n[:len(n) - len(ls)] + target
+    return n
+
+
+def wire_len(n):
+    return sum(len(l) + 1 for l in n) + 1
+
+
+def oracle_c07(c, a, b):
+    w = c.split(" ")
+    if w[0] != "rename":
+        return None
+    p, traw, sraw, sfx = _hex(w[1]), _hex(w[2]), _hex(w[3]), w[4] == "1"
+    ok_in, _ = refdec.is_wellformed(p)
+    if not ok_in:
+        return None
+    try:
+        for raw in (traw, sraw):
+            if refdec.wf_name(raw, 0, allow_ptr=False) != len(raw) or len(raw) < 2:
+                return None  # not a well-formed non-root pointer-free name: outside the quantifier
+    except refdec.IllFormed:
+        return None
+    target, _ = refdec.dec_name(traw, 0)
+    source, _ = refdec.dec_name(sraw, 0)
+    mi = refdec.decode(p)
+    too_long = False
+
+    def rn(n):
+        nonlocal too_long
+        x = rename_name(n, target, source, sfx)
+        if wire_len(x) > 255:
+            too_long = True
+        return x
+    exp_q = rn(mi.qname)
+    exp = []
+    for s in mi.secs:
+        es = []
+        for r in s:
+            rd = r.rd
+            if rd[0] == "name":
+                rd = ("name", tuple(lower(rn(rd[1]))))
+            elif rd[0] == "mx":
+                rd = ("mx", rd[1], tuple(lower(rn(rd[2]))))
+            elif rd[0] == "soa":
+                rd = ("soa", tuple(lower(rn(rd[1]))), tuple(lower(rn(rd[2]))), rd[3])
+            es.append((tuple(lower(rn(r.name))), r.typ, r.cls, r.ttl, rd))
+        exp.append(tuple(es))
+    if outcome(a) == "err":
+        if too_long:
+            return None
+        return "rename failed (%s) although no rewritten name exceeds 255 bytes" % a
+    if outcome(a) != "ok":
+        return "rename did not return normally: %s" % a[:60]
+    if too_long:
+        return "rename produced a packet although a rewritten name exceeds 255 bytes"
+    o = _hex(a.split(" ")[1])
+    ok_out, why = refdec.is_wellformed(o)
+    if not ok_out:
+        return "renamed packet is not accepted: %s" % why
+    mo = refdec.decode(o)
+    got = refdec.msg_key(mo, ci=True)
+    want = (mi.header[:4], tuple(mi.counts), tuple(lower(exp_q)), mi.qtype, mi.qclass, tuple(exp))
+    if got != want:
+        return "renamed message differs from the specified one"
+    return None
+
+
 def nontrivial_accepted(c, a):
     return not a.startswith("noparse")
 
@@ -198,6 +340,33 @@ PROPS = {
         "level": "other",
         "explanation": "",
         "assumptions": [],
+    },
+    "C05": {
+        "module": "DnsModel.Theorems.C05",
+        "theorems": [],
+        "families": [{"name": "uncompress", "quick": 700, "thorough": 40000}],
+        "oracle": oracle_c05,
+        "nontrivial": lambda c, a: a.startswith("ok"),
+        "rule": "accepted packets (4 layouts, OPT anywhere) x {plain decompression + second run, 3 random record boundaries, end of packet}; non-trivial = distinct successful calls",
+        "level": "other", "explanation": "", "assumptions": [],
+    },
+    "C06": {
+        "module": "DnsModel.Theorems.C06",
+        "theorems": [],
+        "families": [{"name": "compress-families", "quick": 0, "thorough": 0, "fixed": True}, {"name": "compress", "quick": 2500, "thorough": 150000}],
+        "oracle": oracle_c06,
+        "nontrivial": lambda c, a: a.startswith("ok"),
+        "rule": "pointer-free accepted packets: random messages with a shared label pool plus the dictionary families (30..70 distinct suffixes, suffixes of 126..255 bytes, nesting 2..40, names beyond offset 16383, mixed-case duplicates in every name-bearing rdata, OPT in 4 positions)",
+        "level": "other", "explanation": "", "assumptions": [],
+    },
+    "C07": {
+        "module": "DnsModel.Theorems.C07",
+        "theorems": [],
+        "families": [{"name": "rename-families", "quick": 0, "thorough": 0, "fixed": True}, {"name": "rename", "quick": 1500, "thorough": 75000}],
+        "oracle": oracle_c07,
+        "nontrivial": lambda c, a: a.startswith("ok") or a.startswith("err"),
+        "rule": "accepted packets (4 layouts) x 2 (target, source, mode): sources drawn from the packet's own name suffixes (matches at every depth), case variants, one-character near-misses, unrelated; targets incl. self and names that push the result past 255 bytes",
+        "level": "other", "explanation": "", "assumptions": [],
     },
     "C12": {
         "module": "DnsModel.Theorems.C12",
